@@ -73,7 +73,7 @@ static void body(mvprog::PT& p) {
             // program would be stuck in. Judge it exactly like a deadlock, then let the program go on.
             if (mv_now() < t0 + forever) pmc_violation("wait-failed-without-reason", "untimed wait returned ETIMEDOUT after %llu us", (unsigned long long)(mv_now() - t0));
             // only the first thread to run after the clock jumped sees the quiescent state itself
-            if (G->judged_jump != mv_time_jumps()) { G->judged_jump = mv_time_jumps(); judge_quiescence("stand-in timeout", false); }
+            if (G->judged_jump != mv_time_jumps() && mv_time_heur() == 0 && mv_time_devs() == 0) { G->judged_jump = mv_time_jumps(); judge_quiescence("stand-in timeout", false); }
             G->blocked_demand[p.idx] = 0;
             G->log += char('a' + p.idx); G->log += 'b'; p.result += "b";
             continue;
